@@ -2,6 +2,7 @@ import BFL.Proofs.Bounds
 import BFL.Proofs.BoundsSigma
 import BFL.Proofs.BoundsCorr
 import BFL.Proofs.BoundsPart
+import BFL.Proofs.BoundsFilt
 set_option linter.unusedSimpArgs false
 /-
 C14 — no operation reads or writes outside its matrices or mixes incompatible sizes.
@@ -509,5 +510,140 @@ theorem unsafe_gpf_move_before_fix_counterexample : ¬ (moveThenUse .gpfCorrecti
 
 example : rwpValid 8 1 2 ⟨0, 1, true, 0⟩ 8 := by decide
 example : eeValid 2 1 true ⟨⟨3, 4⟩, 4, 4, 4, ⟨4, 4⟩⟩ := by decide
+
+/-! ## deepening round: predictions, particle-filter plumbing, stale members -/
+
+/-- `LinearStateModel::propagate`: every combination of skipped state / attached / skipped exogenous model -/
+theorem safe_linear_propagate (fn sr num pr pc : Nat) (skipS hasExo skipE : Bool) (h : linpropValid fn sr num pr pc) :
+    (linpropCase fn sr num pr pc skipS hasExo skipE).Safe := by
+  obtain ⟨_, h1, h2, h3⟩ := h
+  subst h1 h2 h3
+  unfold linpropCase
+  simp only [safe_bind, safe_pure, and_true]
+  exact linPropagateFull_safe _ _ _ _ _
+
+/-- `KFPrediction::predict`, every skip command, with / without exogenous model, also in place (`predict(b, b)`) -/
+theorem safe_kf_predict (I : Layout) (K : Nat) (P : Layout) (pK fn : Nat) (m : SkipMode) (hasExo alias : Bool)
+    (h : kfpValid I K P pK fn m hasExo alias) : (kfpCase I K P pK fn m hasExo alias).Safe := by
+  obtain ⟨_, hfn, _, hdim, hdc, hal, _⟩ := h
+  unfold kfpCase
+  have : fn ≠ 0 := by omega
+  simp only [this, if_false, safe_bind, safe_pure, and_true]
+  cases alias with
+  | true => simpa using kfPredict_safe I K fn m hasExo hdim hdc
+  | false =>
+    obtain ⟨hP, hpK⟩ := hal rfl
+    subst hP hpK
+    simpa using kfPredict_safe P pK fn m hasExo hdim hdc
+
+/-- `UKFPrediction::predict`, generic (noise-augmented, any layout incl. quaternion) and additive (linear model) variants -/
+theorem safe_ukf_predict (additive : Bool) (I : Layout) (K n qn : Nat) (D : Layout) (inoise : Nat) (skip : Bool)
+    (h : ukfpValid additive I K n qn D inoise) : (ukfpCase additive I K n qn D inoise skip).Safe := by
+  obtain ⟨hK, hIn, hId, hD, hrest⟩ := h
+  subst hD
+  unfold ukfpCase
+  simp only [safe_bind]
+  refine ⟨mkGM_safe K D (Or.inl hK), ?_⟩
+  cases additive with
+  | true =>
+    simp only [if_true] at hrest
+    obtain ⟨hn, hq, hdim, hdc⟩ := hrest
+    subst hq
+    have hl : ltiStateOk qn qn = true := by simp [ltiStateOk]; omega
+    simp only [hl, Bool.true_and, Bool.not_true, Bool.false_eq_true, if_false, if_true, safe_bind, safe_pure, and_true]
+    exact ukfPredictAdditive_safe D K qn skip hK hIn hId hdim hdc
+  | false =>
+    simp only [Bool.false_eq_true, if_false] at hrest
+    subst hrest
+    simp only [Bool.false_and, Bool.false_eq_true, if_false, safe_bind, safe_pure, and_true]
+    exact ukfPredictGeneric_safe D K inoise skip hK hIn hId
+
+theorem safe_gpf_predict (I : Layout) (K : Nat) (P : Layout) (pK fn : Nat) (h : gpfpValid I K P pK fn) :
+    (gpfpCase I K P pK fn).Safe := by
+  obtain ⟨_, hfn, _, hdim, hdc, hP, hpK⟩ := h
+  subst hP hpK
+  unfold gpfpCase
+  have : fn ≠ 0 := by omega
+  simp only [this, if_false, safe_bind, safe_pure, and_true]
+  exact gpfPredict_safe P pK fn hdim hdc
+
+/-- `DrawParticles::predictStep` over WhiteNoiseAcceleration of every `Dim`, both constructors -/
+theorem safe_draw_particles (d : Dim) (I : Layout) (N : Nat) (P : Layout) (pN : Nat) (hasExo : Bool)
+    (h : drawValid d I N P pN) : (drawCase d I N P pN hasExo).Safe := by
+  obtain ⟨_, hdim, hP, hpN⟩ := h
+  subst hP hpN
+  unfold drawCase
+  simp only [safe_bind, safe_pure, and_true]
+  exact drawPredict_safe d P pN hasExo hdim
+
+theorem safe_gaussian_likelihood (N sr : Nat) (M : MMod) (h : glikValid M) : (glikCase N sr M).Safe := by
+  unfold glikCase
+  simp only [safe_bind, safe_pure, and_true]
+  exact (gaussianLikelihood_ok M ⟨sr, N⟩ h.1 h.2).1
+
+/-- `BootstrapCorrection::correct` (+ `getLikelihood`): any subset of failing model calls, any layout -/
+theorem safe_bootstrap_correct (I : Layout) (N : Nat) (M : MMod) (h : bootValid I M) : (bootCase I N M).Safe := by
+  unfold bootCase
+  simp only [safe_bind, safe_pure, and_true]
+  exact bootstrapCorrect_safe I N M h.2.1 h.2.2
+
+/-- `GPFCorrection::correctStep` (Gaussian correction, sampling, likelihood, transition probability, proposal density, weights) -/
+theorem safe_gpf_correct (d : Dim) (N cN hm ysize : Nat) (mvalid : Bool) (h : gpfcValid N cN hm ysize) :
+    (gpfcCase d N cN hm ysize mvalid).Safe := by
+  obtain ⟨hN, hcN, hhm, hy⟩ := h
+  rw [hcN, hy]
+  unfold gpfcCase
+  have : hm ≠ 0 := by omega
+  simp only [this, if_false, safe_bind, safe_pure, and_true]
+  exact gpfCorrect_safe d N hm mvalid hN hhm
+
+/-- `SIS`: initialisation + any number of filtering steps, whatever the data-dependent decisions (resample or not at each
+    step, every comparison of the resampling scan) -/
+theorem safe_sis (N lin circ : Nat) (d : Dim) (nx ny hm steps : Nat) (resampleAt : Nat → Bool) (gt : Nat → Nat → Bool)
+    (h : sisValid N lin circ d hm) : (sisCase N lin circ d nx ny hm steps resampleAt gt).Safe := by
+  obtain ⟨hN, hd, hhm⟩ := h
+  unfold sisCase
+  split
+  · simp
+  · simp only [safe_bind, safe_pure, and_true]
+    exact sisRun_safe N lin circ d nx ny hm steps resampleAt gt hN hd
+
+/-- Any number of successive `correct()` / `getLikelihood()` calls on ONE SUKFCorrection object: the members are
+    overwritten stage by stage, so innovations of an earlier success can meet sigma points of a later call with another
+    component count — the shapes stay consistent (stale values are C05's matter, not a size error). -/
+theorem safe_sukf_call_sequence_partial (I : Layout) (M : MMod) (sub : Nat) (reduced : Bool) (steps : List CStep)
+    (h : sukfSeqValid I M sub reduced steps) (hs : sukfSupported I) : (sukfSeqCase I M sub reduced steps).Safe := by
+  unfold sukfSeqCase
+  simp only [safe_bind, safe_pure, and_true]
+  exact sukfSeq_safe I M sub reduced hs steps SUKFMem.init (Or.inl rfl) h
+
+/-- `ParticleSet::resize` keeps `state_` consistent with the mixture bookkeeping (fix 668e0de) -/
+theorem ps_resize_consistent (p : PSStore) (K dl dc : Nat) (h : p.wf) : (psResize p K dl dc).wf :=
+  psResize_wf p K dl dc h
+
+/-- `a += a` (after fix 39621a9 the right-hand side is copied first): consistent, and the set is doubled -/
+theorem safe_particle_set_add_self (K : Nat) (L : Layout) :
+    (psaddselfCase K L).Safe ∧ (psaddselfCase K L).val = some (psCtor (K + K) L.dl L.dc L.quat).tokens := by
+  unfold psaddselfCase psAddSelf
+  simp [psAdd_safe K K L.dl L.dc L.quat, psAdd_wf K K L.dl L.dc L.quat]
+
+/-- the defect fixed by 39621a9 (key `psadd-self-alias`): without the copy the right-hand side is read after it has been grown -/
+theorem unsafe_particle_set_add_self_before_fix_counterexample :
+    ¬ (psAddSelfBeforeFix (psCtor 2 2 0 false)).Safe ∧ (psAddSelfBeforeFix (psCtor 0 2 0 false)).Safe := by decide
+
+/-- `g.augmentWithNoise(g.covariance(0))` (aliasing argument, legal since af9098e) -/
+theorem safe_gm_augment_aliased (K : Nat) (L : Layout) (hK : 1 ≤ K) : (gmaugAliasCase K L).Safe := by
+  have hw0 := gmCtor_wf K L.dl L.dc L.quat
+  have h1 := gmAugment_ok (gmCtor K L.dl L.dc L.quat) ⟨(gmCtor K L.dl L.dc L.quat).cov.r, (gmCtor K L.dl L.dc L.quat).dcov⟩ hw0 (by simpa [gmCtor] using hK)
+  unfold gmaugAliasCase
+  simp only [safe_bind, val_bind, safe_pure, and_true, middleCols, safe_mk_cons, safe_mk_nil, Cond.holds]
+  refine ⟨?_, h1.1⟩
+  simp [gmCtor]
+  have := mul_block_le (Layout.mk L.dl L.dc L.quat 0).dcov 0 K (by omega)
+  omega
+
+example : kfpValid ⟨3, 0, false, 0⟩ 2 ⟨3, 0, false, 0⟩ 2 3 .state true false := by decide
+example : ukfpValid false ⟨1, 1, true, 0⟩ 2 0 2 ⟨1, 1, true, 0⟩ 2 := by decide
+example : sisValid 4 3 1 .two 2 := by decide
 
 end BFL.Bounds
